@@ -104,6 +104,14 @@ func ParseField(v reflect.Value, bytes []byte, params fieldParameters) error {
 		return fmt.Errorf("type value out of range")
 	}
 
+	// An explicit tag wraps the complete encoding of the underlying type: decode what is inside it.
+	if params.tagNumber != nil && params.explicitTag {
+		innerParams := params
+		innerParams.tagNumber = nil
+		innerParams.explicitTag = false
+		return ParseField(v, bytes[talOff:int64(talOff)+tal.len], innerParams)
+	}
+
 	// We deal with the structures defined in this package first.
 	switch fieldType {
 	case BitStringType:
